@@ -7,6 +7,47 @@ from c07 import run_all
 matches_known = default_matches_known
 
 
+def direct_one(case):
+    """ValidationLoss called directly on a sequence of parameter values with repetitions (its validation data is a
+    single point, so equal parameters give exactly equal criteria: ties with the running minimum, which are no strict
+    improvement); flag, stop request, running minimum and counter are compared with the definition"""
+    import math
+    from common import jx
+    jax, jnp, np, eqx, jinns = jx()
+    cfg = dict(kind=case["kind"], n=3, nt=1, bs=1, rar=False, param_gen=False, obs_gen=False, opt="sgd", seed=case["seed"], track=False)
+    pb = S.build(cfg)
+    early, patience = case["early"], case["patience"]
+    vl = jinns.validation.ValidationLoss(loss=pb["L"], validation_data=pb["g"], call_every=1, early_stopping=early, patience=patience)
+    best, counter, ties = math.inf, 0, 0
+    for step, a in enumerate(case["a_values"]):
+        P = eqx.tree_at(lambda t: t.eq_params["a"], pb["P"], jnp.array(a))
+        vl, stop, crit, flag = vl(P)
+        crit, flag, stop = float(crit), bool(flag), bool(stop)
+        ties += int(crit == best)
+        e_stop = early and counter == patience
+        e_flag = crit < best
+        if e_flag:
+            best, counter = crit, 0
+        else:
+            counter += 1
+        got = (flag, stop, float(vl.best_val_loss), float(vl.counter))
+        want = (e_flag, e_stop, best, float(counter))
+        if got != want:
+            return [{"detail": f"ValidationLoss call {step}: criterion {crit}; (improvement flag, stop request, running minimum, counter) = {got}, definition gives {want}", "case": case}], step + 1, ties
+    return [], len(case["a_values"]), ties
+
+
+def direct_calls(rng, tier):
+    viol, ncalls, nties = [], 0, 0
+    avals = [1.5, 0.5, 2.5, -1.0]
+    for j in range(6 if tier == "quick" else 30):
+        case = dict(kind=S.KINDS[j % 3], seed=rng.randrange(1 << 20), early=(j % 4 != 3), patience=rng.choice([0, 1, 2, 3]),
+                    a_values=[rng.choice(avals) for _ in range(rng.randint(6, 10))], direct=True)
+        v, n, t = direct_one(case)
+        viol += v; ncalls += n; nties += t
+    return viol, ncalls, nties
+
+
 def generate(tier, seed, casedir, variant):
     rng = random.Random(seed)
     cfgs = []
@@ -34,13 +75,23 @@ def generate(tier, seed, casedir, variant):
             base["validation"]["huge_obs"] = (j % 3 == 1)
         cfgs.append(base)
     r = run_all(cfgs, casedir, variant, "C19")
+    dv, ncalls, nties = direct_calls(rng, tier)
+    r["oracle_violations"] = list(r.get("oracle_violations", [])) + dv
+    r["oracle_checks"] = r.get("oracle_checks", 0) + ncalls
+    r.setdefault("distribution", {})
+    r["distribution"].update(direct_validation_calls=ncalls, ties_with_running_minimum=nties)
     r["rule"] = ("scripted validation modules: outcome scripts (stop request, improvement flag) of length %d (all %d of them in the thorough tier), periods 1..3; built-in ValidationLoss with its own data / parameter / observation generators (some validation observations not numbers, so that some criteria are NaN), "
-                 "patience 0..2, early stopping on and off; non-trivial = at least two iterations executed" % (L, 4 ** L))
+                 "patience 0..2, early stopping on and off; plus ValidationLoss called directly on parameter sequences with repetitions (exact ties with the running minimum; oracle only); non-trivial = at least two iterations executed" % (L, 4 ** L))
     r["exhaustive"] = tier == "thorough"
     return r
 
 
 def replay(rep, casedir, variant):
+    if rep["case"].get("direct"):
+        v, n, t = direct_one(rep["case"])
+        r = run_all([], casedir, variant, "C19")
+        r["oracle_violations"] = v; r["oracle_checks"] = n; r["rule"] = "replay"
+        return r
     r = run_all([rep["case"]], casedir, variant, "C19")
     r["rule"] = "replay"
     return r
